@@ -1,3 +1,4 @@
+import MiniconfVerif.Lemmas.GenTieExact
 import MiniconfVerif.Lemmas.IterRootGen
 import MiniconfVerif.Lemmas.GenTie
 import MiniconfVerif.Lemmas.IterRoot
@@ -221,5 +222,28 @@ theorem source_next_is_model (s : Schema) (D : Nat) (fresh : Target) (it : IterS
     stepOfCtl (NodeIter.next_body D tcN tcU (itToGen it)) = (it.step s D fresh).erase ∧
     NodeIter.default D = itToGen (IterSt.init D) :=
   ⟨next_body_tie s D fresh it hlen tcN tcU hN hU, rfl⟩
+
+theorem exactCountsM_eq (l : List Polled) (c : Nat) : GenTie.exactCountsM l c = exactCounts l c := by
+  induction l generalizing c with
+  | nil => rfl
+  | cons x xs ih => cases x <;> simp [GenTie.exactCountsM, exactCounts, ih]
+
+open MiniconfVerif.Gen MiniconfVerif.Gen.Core MiniconfVerif.GenTie in
+/-- `<ExactSize<T> as Iterator>::next` and `NodeIter::exact_size` **as translated from iter.rs** (debug profile): over
+*any* inner iterator, the remaining length the wrapper holds after each call is the model's `exactCounts` of what the
+inner iterator returned (it panics exactly where `exactCounts` says `none`: on underflow, or when the inner iterator
+ends with a non-zero count); and `exact_size()` on a fresh or rooted iterator panics exactly when the iterator is
+rooted below the tree root or `D < max_depth`, starting the counter at `Metadata::count` otherwise. -/
+theorem source_exact_size_is_model :
+    (∀ {ι τ : Type} (f : τ → IterItem) (nextI : ι → P (ι × Option τ)) (n : Nat) (i : ι) (c : Nat),
+      exactRun nextI n ⟨i, c⟩ = exactCounts (innerPolled f nextI n i) c) ∧
+    (∀ (s : Schema) (_ : s.WF) (D : Nat) (ks : KeySrc) (it : IterSt), IterSt.withRoot s D ks = .ok it →
+      if it.root = 0 ∧ s.meta.maxDepth ≤ D
+        then NodeIter.exact_size D (metaToGen s.meta) (itToGen it) = .val ⟨itToGen it, s.meta.count⟩
+        else ∃ m, NodeIter.exact_size D (metaToGen s.meta) (itToGen it) = .panic m) ∧
+    (∀ (m : Meta) (D : Nat), NodeIter.exact_size D (metaToGen m) (NodeIter.default D) =
+      if m.maxDepth ≤ D then .val ⟨NodeIter.default D, m.count⟩ else .panic "NodeIter.exact_size: assert! failed") :=
+  ⟨fun f nextI n i c => by rw [exactRun_tie f nextI n i c, exactCountsM_eq],
+   fun s hwf D ks it h => exact_size_tie s hwf D ks it h, exact_size_fresh_tie⟩
 
 end MiniconfVerif.C11
